@@ -289,6 +289,14 @@ func (c *Ctx) Finish(spec *PropertySpec, start time.Time, evidencePath, knownPat
 	}
 	cov["exceptions"] = c.excepts
 	cov["notes"] = c.notes
+	rr := RenamesResolved
+	if rr == nil {
+		rr = []string{}
+	}
+	cov["renames_resolved"] = rr
+	if len(rr) > 0 {
+		fmt.Printf("renames resolved through the declaration snapshot: %s\n", strings.Join(rr, "; "))
+	}
 	ev := evidence{PropertyID: spec.ID, Tier: c.Tier, Seed: seedFromEnv(), Level: "other", Coverage: cov,
 		Assumptions: assumptions, WallS: time.Since(start).Seconds(), Violations: violated}
 	if evidencePath != "" {
